@@ -198,3 +198,28 @@ def words(thorough=False):
             out.append((f"bcctr {bo},{bi}", (19 << 26) | (bo << 21) | (bi << 16) | (528 << 1)))
     out.append(("blr", 0x4e800020)); out.append(("bctr", 0x4e800420)); out.append(("bdnzl 0x20", (16 << 26) | (16 << 21) | 0x20 | 1)); out.append(("blrl", 0x4e800021))
     return out
+
+
+def random_words(rnd, n):
+    """n words per class with random register numbers and immediates (seeded)."""
+    out = []
+    r = lambda: rnd.choice([rnd.randrange(32), 0, 1, 31])
+    for _ in range(n):
+        rt, ra, rb = r(), r(), r()
+        im = rnd.choice([rnd.randrange(65536), 0x8000, 0x7fff, 0xffff, 0])
+        out += [(f"add r{rt},r{ra},r{rb}", X(rt, ra, rb, 266)), (f"subf r{rt},r{ra},r{rb}", X(rt, ra, rb, 40)), (f"addze r{rt},r{ra}", X(rt, ra, 0, 202)), (f"mr r{ra},r{rt}", X(rt, ra, rt, 444)),
+                (f"addi r{rt},r{ra},{im:#x}", D(14, rt, ra, im)), (f"addis r{rt},r{ra},{im:#x}", D(15, rt, ra, im)),
+                (f"lwz r{rt},{im:#x}(r{ra})", D(32, rt, ra, im)), (f"lbz r{rt},{im:#x}(r{ra})", D(34, rt, ra, im)), (f"stw r{rt},{im:#x}(r{ra})", D(36, rt, ra, im))]
+        if ra != 0:
+            out.append((f"stwu r{rt},{im:#x}(r{ra})", D(37, rt, ra, im)))
+            if ra != rt: out.append((f"lwzu r{rt},{im:#x}(r{ra})", D(33, rt, ra, im)))
+        crf = rnd.randrange(8)
+        out += [(f"cmpwi cr{crf},r{ra},{im:#x}", D(11, crf << 2, ra, im)), (f"cmplwi cr{crf},r{ra},{im:#x}", D(10, crf << 2, ra, im))]
+        sh, mb, me = rnd.randrange(32), rnd.randrange(32), rnd.randrange(32)
+        out.append((f"rlwinm r{ra},r{rt},{sh},{mb},{me}", (21 << 26) | (rt << 21) | (ra << 16) | (sh << 11) | (mb << 6) | (me << 1)))
+        out.append((f"srawi r{ra},r{rt},{sh}", (31 << 26) | (rt << 21) | (ra << 16) | (sh << 11) | (824 << 1)))
+        bo, bi = rnd.choice([12, 4, 20, 16, 18, 8, 0, 13, 5]), rnd.randrange(32)
+        bd = rnd.randrange(1 << 14) << 2
+        out.append((f"bc {bo},{bi},{bd:#x}", (16 << 26) | (bo << 21) | (bi << 16) | bd))
+        out.append((f"bclr {bo},{bi}", (19 << 26) | (bo << 21) | (bi << 16) | (16 << 1)))
+    return out
